@@ -335,8 +335,9 @@ Definition spec_block_value (raw : bytes) : bytes :=
 
 (* ---- JSON string (RFC 8259 section 7), after the opening quotation mark ----
    char = unescaped (%x20-21 / %x23-5B / %x5D-10FFFF) | \ ( DQUOTE \ / b f n r t | uXXXX )
-   [strict=false] additionally lets control characters through (used only to compare trees when
-   the text under inspection is already known to be invalid). *)
+   [strict=false] is NOT the RFC: it is the reading the forwarding layer (astjson, a fastjson fork)
+   gives a string -- control characters pass, an escape it cannot decode is kept as written.  It is
+   used only by the correspondence check of the upstream request (what astjson re-marshals). *)
 Definition json_escaped_char (e : byte) : option byte :=
   if e =? 34 then Some 34 else if e =? 92 then Some 92 else if e =? 47 then Some 47
   else if e =? 98 then Some 8 else if e =? 102 then Some 12 else if e =? 110 then Some 10
@@ -358,28 +359,47 @@ Fixpoint json_str (strict : bool) (s : bytes) : option (bytes * bytes) :=
           match r1 with
           | a :: b2 :: c2 :: d2 :: r3 =>
             match hex4v a b2 c2 d2 with
-            | None => None
+            | None => if strict then None else opt_cons [92; 117] (json_str strict r1)
             | Some cp =>
-              if is_high_surrogate cp then
-                match r3 with
-                | x1 :: x2 :: a' :: b' :: c' :: d' :: r4 =>
-                  if (x1 =? 92) && (x2 =? 117) then
-                    match hex4v a' b' c' d' with
-                    | Some lo =>
-                      if is_low_surrogate lo then opt_cons (utf8_encode (combine_surrogates cp lo)) (json_str strict r4)
-                      else opt_cons (utf8_encode cp) (json_str strict r3)
-                    | None => None
-                    end
-                  else opt_cons (utf8_encode cp) (json_str strict r3)
-                | _ => opt_cons (utf8_encode cp) (json_str strict r3)
-                end
-              else opt_cons (utf8_encode cp) (json_str strict r3)
+              if strict then
+                (* RFC 8259: a pair of escapes may encode one code point above U+FFFF *)
+                if is_high_surrogate cp then
+                  match r3 with
+                  | x1 :: x2 :: a' :: b' :: c' :: d' :: r4 =>
+                    if (x1 =? 92) && (x2 =? 117) then
+                      match hex4v a' b' c' d' with
+                      | Some lo =>
+                        if is_low_surrogate lo then opt_cons (utf8_encode (combine_surrogates cp lo)) (json_str strict r4)
+                        else opt_cons (utf8_encode cp) (json_str strict r3)
+                      | None => None
+                      end
+                    else opt_cons (utf8_encode cp) (json_str strict r3)
+                  | _ => opt_cons (utf8_encode cp) (json_str strict r3)
+                  end
+                else opt_cons (utf8_encode cp) (json_str strict r3)
+              else
+                (* the reading of github.com/wundergraph/astjson (fastjson unescapeStringBestEffort) *)
+                if is_surrogate cp then
+                  match r3 with
+                  | x1 :: x2 :: a' :: b' :: c' :: d' :: r4 =>
+                    if (x1 =? 92) && (x2 =? 117) then
+                      match hex4v a' b' c' d' with
+                      | Some lo =>
+                        if is_high_surrogate cp && is_low_surrogate lo
+                        then opt_cons (utf8_encode (combine_surrogates cp lo)) (json_str strict r4)
+                        else opt_cons [239; 191; 189] (json_str strict r4)
+                      | None => opt_cons [92; 117; a; b2; c2; d2] (json_str strict r3)
+                      end
+                    else opt_cons [92; 117; a; b2; c2; d2] (json_str strict r3)
+                  | _ => opt_cons [92; 117; a; b2; c2; d2] (json_str strict r3)
+                  end
+                else opt_cons (utf8_encode cp) (json_str strict r3)
             end
-          | _ => None
+          | _ => if strict then None else opt_cons [92; 117] (json_str strict r1)
           end
         else match json_escaped_char e with
              | Some c => opt_cons [c] (json_str strict r1)
-             | None => None
+             | None => if strict then None else opt_cons [92; e] (json_str strict r1)
              end
       end
     else if strict && (b <? 32) then None
